@@ -501,8 +501,8 @@ def lab_run(task, spec, args):
                     fh.write(content)
             if fault_kind == 'raise_mid_dir':
                 raise LabFault(f'{full} dir fault uid={uid}')
-        if kind == 'continues':
-            data.finished()
+        if kind == 'continues' and fault_kind != 'no_finish':
+            data.finished()          # (`no_finish`: this session of a resumable computation ends without completing it)
         return data
     if kind == 'memory':
         m = LabMemOpt(note='made by run') if spec.get('mem_opt') else (LabMem() if int(h[:2], 16) % 2 else LabMemEmpty())
